@@ -7,6 +7,13 @@
 (*     out = [res, periods]  periods[k] = [present, ndays, sn, sd, sok,    *)
 (*        pn, pd, pok]: whether the period's days carry usage, how many,   *)
 (*        their sum and the value of a plain 24-hour day (rationals)       *)
+(*  in.kind = "calendar": [periods]  periods[k] = [len, extra, amount]:    *)
+(*        a read calendar of any lengths; `extra` is measured by the       *)
+(*        driver from the real dates; the cycle is NOT given: it is        *)
+(*        whatever the calendar itself shows (readings below).  A period   *)
+(*        without an amount is not expressible: in the frame the data      *)
+(*        classes take, NaN means "no read on that day".                   *)
+(*     out as for "billing"                                                *)
 (*  in.kind = "subdaily": [interval, dayMin, missing, total]               *)
 (*        readings of `interval` minutes on a local day of dayMin minutes; *)
 (*        missing: indices (1-based) of the readings without a value;      *)
@@ -33,6 +40,20 @@ ExpTemp(in) == Q(SumPresent(in, in.total), Present(in))
 Kept(cycle, len) == len >= 25 /\ len <= (IF cycle = "monthly" THEN 35 ELSE 70)
 PeriodMinutes(p) == 1440 * p.len + p.extra
 
+\* --- read calendars whose cycle is not declared -------------------------------------------------
+\* a period is a candidate when it has an amount and is not an off-cycle short read
+Cand(in) == {k \in 1..Len(in.periods) : in.periods[k].len >= 25}
+Regular(p) == p.len >= 25 /\ p.len <= 35
+Long(p) == p.len >= 36 /\ p.len <= 70
+\* reading: the calendar is unarguably (pseudo-)monthly when all candidates but one are no longer than a calendar month
+\* (at least two of them) and the remaining one could not be a genuine two-month read (<= 45 days); unarguably bi-monthly
+\* when every candidate is at least 45 days.  Anything else is mixed: the statement does not say which limit applies and
+\* either outcome is admitted for the long periods.
+MonthlyDetermined(in) == /\ Cardinality({k \in Cand(in) : in.periods[k].len <= 31}) >= 2
+                         /\ Cardinality({k \in Cand(in) : in.periods[k].len > 31}) <= 1
+                         /\ \A k \in Cand(in) : in.periods[k].len <= 45
+BimonthlyDetermined(in) == Cand(in) # {} /\ \A k \in Cand(in) : in.periods[k].len >= 45
+
 Clauses(in, out) ==
   CASE in.kind = "billing" ->
       LET n == Len(in.periods)
@@ -44,6 +65,25 @@ Clauses(in, out) ==
                 (out.periods[k].sok /\ Eq(<<out.periods[k].sn, out.periods[k].sd>>, R(in.periods[k].amount)))>>,
          <<"ConstantRateOverThePeriod", ok => \A k \in 1..n : Kept(in.cycle, in.periods[k].len) =>
                 (out.periods[k].pok /\ Eq(<<out.periods[k].pn, out.periods[k].pd>>, Q(1440 * in.periods[k].amount, PeriodMinutes(in.periods[k]))))>> >>
+    [] in.kind = "calendar" ->
+      LET n == Len(in.periods)
+          ok == out.res = "ok" /\ Len(out.periods) = n
+          P(k) == in.periods[k]
+          O(k) == out.periods[k]
+          \* the quantifier excludes the final day (its interval is open-ended): the last period may come back a day short,
+          \* and is judged on its amounts only when it is complete and no clock change falls inside it
+          Days(k) == O(k).ndays = P(k).len \/ (k = n /\ O(k).ndays = P(k).len - 1)
+          Judged(k) == O(k).present /\ O(k).ndays = P(k).len /\ (k < n \/ P(k).extra = 0) IN
+      << <<"DataObjectBuilt", ok>>,
+         \* (a last period with a clock change inside ends in the excluded final day: its length class is not judged)
+         <<"OffCyclePeriodsDropped", ok => \A k \in 1..n : ((P(k).len < 25 \/ P(k).len > 70) /\ (k < n \/ P(k).extra = 0)) => ~O(k).present>>,
+         <<"ValidPeriodsKept", ok => \A k \in 1..n : (Regular(P(k)) /\ (k < n \/ P(k).extra = 0)) => (O(k).present /\ Days(k))>>,
+         <<"LongPeriodDroppedFromAMonthlyCalendar", ok => \A k \in 1..n : (Long(P(k)) /\ MonthlyDetermined(in)) => ~O(k).present>>,
+         <<"LongPeriodKeptInABimonthlyCalendar", ok => \A k \in 1..n : (Long(P(k)) /\ BimonthlyDetermined(in)) => (O(k).present /\ Days(k))>>,
+         <<"KeptPeriodIsWhole", ok => \A k \in 1..n : O(k).present => Days(k)>>,
+         <<"DailyValuesAddUpToTheBilledAmount", ok => \A k \in 1..n : Judged(k) => (O(k).sok /\ Eq(<<O(k).sn, O(k).sd>>, R(P(k).amount)))>>,
+         <<"ConstantRateOverThePeriod", ok => \A k \in 1..n : (O(k).present /\ (k < n \/ P(k).extra = 0)) =>
+                (O(k).pok /\ Eq(<<O(k).pn, O(k).pd>>, Q(1440 * P(k).amount, PeriodMinutes(P(k)))))>> >>
     [] in.kind = "subdaily" ->
       << <<"DataObjectBuilt", out.res = "ok">>,
          <<"DayCoveredHalfOrLessIsMissing", (out.res = "ok" /\ ~MoreThanHalf(in)) => ~out.has>>,
